@@ -21,6 +21,14 @@ Nested == << <<0>>, [f0 |-> "text"], <<>>, <<1, "text">>, [f0 |-> [f0 |-> TRUE]]
 Shapes == Scalars \o <<<<>>>> \o One(Small) \o Two(Small) \o S1(Small) \o S2(Small)
           \o Nested \o One(Nested) \o Two(Nested) \o S1(Nested) \o S2(Nested)
 
+\* The relation must not depend on what was serialized before on the same thread: histories of k earlier attempts
+\* that failed inside the pointee's own Serialize (with an error or a panic), after which the relation is checked
+\* again; and containers nested d levels deep inside the value (a container in a container ...).
+Histories == { <<k, n>> : k \in {"err", "panic"}, n \in {1, 2, 130, 300} }
+Depths == {1, 2, 3, 40, 150}
+EmitH == /\ \A h \in Histories : PrintT(<<"HIST", ToJson([kind |-> h[1], count |-> h[2], depth |-> 0])>>)
+         /\ \A d \in Depths : PrintT(<<"HIST", ToJson([kind |-> "nest", count |-> 0, depth |-> d])>>)
+
 VARIABLE x
 Init == x = 0
 Next == x' = x
